@@ -17,7 +17,7 @@ RULE = ('cases = {SDML, SDML_Supervised} x prior {identity, covariance, '
         'evaluation is one clause on one fit. distinct_nontrivial counts '
         'distinct (estimator, configuration, pair set) whose reference '
         'solver converged (primal/dual residual < 1e-9).')
-ASSUMPTIONS = ['objective gap tolerance 1e-3*(1+|f|) (the wrapped '
+ASSUMPTIONS = ['objective gap tolerance 3e-4*(1+|f|) (the wrapped '
                'scikit-learn solver stops at tol=1e-4); cases where the '
                'reference ADMM solver does not converge are inconclusive']
 TIMEOUT = {'quick': 1200, 'thorough': 4 * 3600}
@@ -140,12 +140,13 @@ def run_case(spec, j):
          'bmax': bmax, 'd': d, 'fail_clause': spec['fail']}
   api.set_judge(j, well_formed=not spec['fail'])
   raised = None
-  with Quiet():
+  with Quiet() as q:
     try:
       est.fit(*f.args)
     except Exception as e:
       raised = e
   api.set_well_formed(False)
+  not_converged = any('did not converge' in str(w.message) for w in q.w)
   if spec['fail']:
     if raised is not None:
       j.check('C13.failure-clause', type(raised) is RuntimeError,
@@ -163,11 +164,12 @@ def run_case(spec, j):
     if isinstance(raised, RuntimeError) and 'graphical' in str(raised):
       # allowed by the property ("when the solver cannot produce a finite
       # SPD matrix fit raises RuntimeError") -- but on a well-conditioned
-      # positive definite input a finite SPD minimiser exists and is easy to
-      # compute (the reference solver does), so giving up there is judged
+      # positive definite input (condition number < 50; scikit-learn's solver
+      # was seen to give up at 2.4e3) a finite SPD minimiser is easy to
+      # compute, so giving up there is judged
       S = M0inv + b * Lm
       ws = np.linalg.eigvalsh((S + S.T) / 2)
-      if ws.min() > 0 and ws.max() / ws.min() < 1e4:
+      if ws.min() > 0 and ws.max() / ws.min() < 50:
         j.violated('C13.solves-pd-input',
                    dict(det, cond_S=ws.max() / ws.min(),
                         raised=str(raised)[-200:]),
@@ -196,8 +198,16 @@ def run_case(spec, j):
     return
   fM = objective((M + M.T) / 2, S, alpha)
   fT = objective(Theta, S, alpha)
-  j.close('C13.objective-gap', fM, fT, 1e-3 * (1 + abs(fT)),
+  if not_converged:
+    # scikit-learn's graphical lasso ran out of its (default) iteration
+    # budget and said so: "within solver tolerance" presupposes convergence
+    j.skip('C13.objective-gap', 'wrapped-solver-reported-non-convergence')
+    j.margin('C13.gap-when-not-converged(reported)',
+             abs(fM - fT) / (1e-3 * (1 + abs(fT))))
+    return
+  j.close('C13.objective-gap', fM, fT, 3e-4 * (1 + abs(fT)),
           dict(det, f_M=fM, f_ref=fT))
+  j.margin('C13.absolute-gap(reported)', abs(fM - fT))
   if fM < fT - 1e-7 * (1 + abs(fT)):
     # the oracle itself is refuted: never a verdict about the code
     j.skip('C13.not-below-optimum', 'reference-not-optimal')
